@@ -67,6 +67,15 @@ def corners(tier):
         c[f"dependency-pyproject-{k}"] = J(files={"app.py": pick, "pyproject.toml": ms.PYPROJECT[k].encode()}, argv=["{dir}", "--codemod-include", "pixee:python/harden-pickle-load"])
     c["dependency-setup-cfg"] = J(files={"app.py": pick, "setup.cfg": ms.SETUP_CFG["multiline"].encode()}, argv=["{dir}", "--codemod-include", "pixee:python/harden-pickle-load"])
     c["dependency-setup-py"] = J(files={"app.py": pick, "setup.py": ms.SETUP_PY["multiline-trailing"].encode()}, argv=["{dir}", "--codemod-include", "pixee:python/harden-pickle-load"])
+    # every manifest content of the C14 alphabet (one-line requirement sequences, with and without trailing blank lines
+    # / final newline, and every section shape of the other formats): the dependency change entries must stay inside the file
+    for label, text in ms.req_texts(1):
+        for shp, data in (("lf", text.encode()), ("nofinal", text.rstrip("\n").encode()), ("trailing-blank", (text + "\n\n").encode())):
+            c[f"dep-req:{label}:{shp}"] = J(files={"app.py": pick, "requirements.txt": data}, argv=["{dir}", "--codemod-include", "pixee:python/harden-pickle-load"])
+    for kind in ("setup.cfg", "pyproject.toml", "setup.py"):
+        for label, text in ms.KINDS[kind][0].items():
+            c[f"dep-{kind}:{label}"] = J(files={"app.py": pick, kind: text.encode()}, argv=["{dir}", "--codemod-include", "pixee:python/harden-pickle-load"])
+            c[f"dep-{kind}:{label}:trailing-blank"] = J(files={"app.py": pick, kind: (text + "\n\n").encode()}, argv=["{dir}", "--codemod-include", "pixee:python/harden-pickle-load"])
     c["non-ascii"] = J(files={"módulo/ünï cöde.py": "# ünïcödé ✓\nπ = sum([x for x in range(3)])\n".encode()}, argv=["{dir}", "--codemod-include", "pixee:python/use-generator"])
     c["dry-run"] = J(files={"app.py": GEN, "requirements.txt": b"requests\n", "p.py": pick}, argv=["{dir}", "--codemod-include", "pixee:python/use-generator,pixee:python/harden-pickle-load", "--dry-run"])
     c["empty-between"] = J(files={"app.py": GEN, "p.py": pick}, argv=["{dir}", "--codemod-include", "pixee:python/use-generator,pixee:python/use-set-literal,pixee:python/secure-random,pixee:python/harden-pickle-load,pixee:python/no-such"])
